@@ -30,19 +30,30 @@ def rules(ctx, db):
         fin = [bb for bb, t in calls(f, r"actor::deliver::finish$")]
         ctx.ob("R1", "run-always-finishes", len(fin) == 1 and postdominated_by_any(f, fin, 0),
                "every path through run() (start failure, handler failure, stop) goes through finish()", f)
-        rc = [bb for bb, t in calls(f, r"mailbox::receiver::Receiver::<A>::recv$")]
-        dl = [bb for bb, t in calls(f, r"Delivering::<A>::deliver_to$")]
-        polls = [bb for bb, t in calls(f, r"core::future::future::Future::poll$")]
-        ok = bool(rc) and bool(dl)
-        if ok:
+        # the receive / deliver loop lives in run() itself or in a private async helper of the same module that run()
+        # awaits: the serial-handling obligation is checked where the loop is, the order with post_start at its entry
+        RECV, DELIVER = r"mailbox::receiver::Receiver::<A>::recv$", r"Delivering::<A>::deliver_to$"
+        loops = [g for g in db.fns.values() if g.id.startswith(AC + "actor::deliver::") and g.kind == "coroutine"
+                 and calls(g, RECV) and calls(g, DELIVER)]
+        ctx.floor("R1", "receive / deliver loop of the actor", len(loops), 1)
+        entries = []
+        for g in loops:
+            ctx.analysed(g)
+            rc = [bb for bb, t in calls(g, RECV)]
+            dl = [bb for bb, t in calls(g, DELIVER)]
             # from deliver_to, recv is reachable only through a poll of the delivery future
-            hp = [bb for bb, t in calls(f, r"core::future::future::Future::poll$") if t.get("ga") and ("dyn" in t["ga"][0] or "Pin<alloc::boxed::Box" in t["ga"][0])]
-            reach = f.cfg.reach_set([dl[0]], avoid=set(hp))
+            hp = [bb for bb, t in calls(g, r"core::future::future::Future::poll$") if t.get("ga") and ("dyn" in t["ga"][0] or "Pin<alloc::boxed::Box" in t["ga"][0])]
+            reach = g.cfg.reach_set([dl[0]], avoid=set(hp))
             ok = bool(hp) and rc[0] not in reach
-        ctx.ob("R1", "handler-awaited-before-next-recv", ok,
-               "the next message is received only after the current handler's future was polled to completion (serial handling)", f)
+            ctx.ob("R1", "handler-awaited-before-next-recv", ok,
+                   "the next message is received only after the current handler's future was polled to completion (serial handling)", g)
+            if g.id == f.id:
+                entries += rc[:1]
+            else:
+                entries += [bb for bb, t in f.calls() if any(db.body_of(h).id == g.id for h in db.callee_fns(t, expand_traits=False))]
         ps = [bb for bb, t in calls(f, r"Actor::post_start$")]
-        ctx.ob("R1", "post_start-before-loop", bool(ps) and bool(rc) and f.cfg.dominates(ps[0], rc[0]), "post_start runs before the first receive", f)
+        ctx.ob("R1", "post_start-before-loop", bool(ps) and bool(entries) and all(f.cfg.dominates(ps[0], e) for e in entries),
+               "post_start runs before the first receive", f)
     fin = [f for f in db.fns.values() if f.id.startswith(AC + "actor::deliver::finish::") and f.kind == "coroutine"]
     ctx.floor("R1", "actor finish body", len(fin), 1)
     for f in fin:
